@@ -22,7 +22,7 @@ RULE = (
     'one compile(with_mapping=True) per (circuit, model, level, mss); '
     'circuits = all op sequences of length <= L over the per-width alphabet '
     '+ barrier/measure/pre-blocked variants + qutrit circuits + ladders; '
-    'non-trivial = accepted by compile() and containing >= 1 multi-qudit '
+    'non-trivial = ran (ok or crash) and the circuit has >= 1 multi-qudit '
     'gate; distinct = distinct case specification'
 )
 
@@ -108,16 +108,18 @@ def enumerate_cases(ctx: Ctx) -> list:
     m2 = M(2, None, K.GS_DEFAULT, name='all2')
     line5 = M(5, [[0, 1], [1, 2], [2, 3], [3, 4]], K.GS_DEFAULT, name='line5')
     cases: list = []
+    # the CNOT+H+T model gets the operations it can express exactly
+    const_alpha = [a for a in A[3] if a[0] in ('T', 'CNOT')]
 
     def add(n: int, circs: list, models: list, levels: list,
-            msss: tuple = (3,)) -> None:
+            msss: tuple = (3,), eps: float = 1e-8) -> None:
         for lvl in levels:
             for model in models:
                 for mss in msss:
                     for ops in circs:
                         inp = ops if isinstance(ops, dict) \
                             else K.circuit_spec(n, ops)
-                        cases.append(mk(inp, model, lvl, mss))
+                        cases.append(mk(inp, model, lvl, mss, eps))
 
     if ctx.quick:
         noccx = [a for a in A[3] if a[0] != 'CCX']
@@ -137,7 +139,7 @@ def enumerate_cases(ctx: Ctx) -> list:
             add(3, variants(3, ops), [line4], [1])
         add(3, variants(3, v3[0])[:3], [all3zx], [2])
         add(2, variants(2, [A[2][2], A[2][0]]), [line3], [1])
-        add(3, seqs(noccx, 1), [line3c], [1])
+        add(3, seqs(const_alpha, 1), [line3c], [1])
         add(3, seqs(noccx, 1), [line4], [1], msss=(2,))
     else:
         noccx = [a for a in A[3] if a[0] != 'CCX']
@@ -148,7 +150,10 @@ def enumerate_cases(ctx: Ctx) -> list:
             [1, 2])
         add(3, w3_3, [line4, all3zx], [1])
         add(3, seqs(noccx, 2), [line4, star4i], [1, 2], msss=(2,))
-        add(3, seqs(noccx, 2), [line3c], [1, 2])
+        add(3, seqs(const_alpha, 2), [line3c], [1, 2])
+        # generic U3 / CZ on a constant single-qudit gate set: the search
+        # over H,T sequences did not end within 120 s (probes, 2 cases)
+        add(3, [[A[3][0]], [A[3][5]]], [line3c], [1])
         add(3, seqs(noccx, 1), [cz3line], [1, 2])
         add(2, seqs(A[2], 3), [cz2, line3], [1, 2])
         add(2, seqs(A[2], 2), [m2, None], [1, 2, 3, 4])
@@ -173,6 +178,9 @@ def enumerate_cases(ctx: Ctx) -> list:
         add(3, [[A[3][3], A[3][5]], [A[3][0], A[3][3]], [A[3][2], A[3][4]]],
             [line4], [4])
         add(2, seqs(A[2], 1), [line3], [3, 4])
+        # the budget is proportional to synthesis_epsilon: a looser epsilon
+        add(3, seqs(noccx, 1) + [[A[3][6]]], [line4], [1, 2], eps=1e-5)
+        add(3, seqs(noccx, 2), [all3zx], [1], eps=1e-5)
 
     # ---- qutrits (default qutrit model / explicit CSUM+VariableUnitary)
     q1 = [[], [['SHIFT3', [0]]], [['H3', [0]]], [['CLOCK3', [0]]],
@@ -214,11 +222,16 @@ def _rank(c: dict) -> tuple:
             K.stable_hash(c))
 
 
-def tags(case: dict, rec: dict) -> str:
+def tags(case: dict, rec: dict, fine: bool = False) -> str:
+    """Causal coordinates of a failure: level, many-qudit path, machine wider
+    than the circuit, radix; `fine` adds the single-qudit branch and the
+    input variant (used where those decide the code path that failed)."""
     b = K.branches(case)
-    keep = [x for x in b if x.startswith(('level', 'sq:')) or x in (
-        'many-qudit-gate', 'mq-retarget', 'machine-wider', 'sparse',
-        'barrier', 'measure', 'blocked', 'model-none', 'width1', 'mss2')]
+    want = ['many-qudit-gate', 'machine-wider', 'width1']
+    if fine:
+        want += ['barrier', 'measure', 'blocked', 'mss2']
+    keep = [x for x in b if x.startswith('level') or x in want
+            or (fine and x.startswith('sq:'))]
     if case['input'].get('d', 2) != 2:
         keep.append(f'radix{case["input"]["d"]}')
     return ','.join(keep)
@@ -260,7 +273,7 @@ def judge(case: dict, rec: dict) -> list:
     m = rec.get('meas')
     if m is not None and not m['ok']:
         out.append(F(
-            f'measurement-{m["kind"]}:{mp}:{t}',
+            f'measurement-{m["kind"]}:{mp}:{tags(case, rec, True)}',
             f'measurements expected on physical qudits {m["want"]} '
             f'(final mapping {rec["pf"]}), output has {m["got"]}',
         ))
